@@ -172,6 +172,58 @@ def mutate(src, k):
 
 _W = {}
 
+DIR_TESTS = {
+    'analysis': ['test_analysis.py'],
+    'geometries': ['test_geometries.py'],
+    'rays': ['test_rays.py', 'test_optic.py'],
+    'materials': ['test_materials.py'],
+    'optimization': ['test_optimization.py', 'test_variable.py',
+                     'test_operand.py'],
+    'tolerancing': ['test_tolerancing.py', 'test_perturbation.py',
+                    'test_sensitivity_analysis.py', 'test_monte_carlo.py',
+                    'test_compensator.py'],
+    'fileio': ['test_fileio.py'],
+    'surfaces': ['test_standard_surface.py', 'test_surface_factory.py',
+                 'test_image_surface.py', 'test_object_surface.py',
+                 'test_optic.py'],
+}
+FILE_TESTS = {
+    'optic.py': ['test_optic.py', 'test_paraxial.py', 'test_fileio.py'],
+    'paraxial.py': ['test_paraxial.py', 'test_aberrations.py'],
+    'aberrations.py': ['test_aberrations.py', 'test_operand.py'],
+    'wavefront.py': ['test_wavefront.py'],
+    'psf.py': ['test_psf.py', 'test_mtf.py'],
+    'mtf.py': ['test_mtf.py'],
+    'zernike.py': ['test_zernike.py', 'test_wavefront.py'],
+    'coatings.py': ['test_coatings.py'],
+    'jones.py': ['test_jones.py', 'test_coatings.py'],
+    'scatter.py': ['test_scatter.py'],
+    'distribution.py': ['test_distribution.py'],
+    'fields.py': ['test_fields.py', 'test_optic.py'],
+    'wavelength.py': ['test_wavelength.py', 'test_optic.py'],
+    'aperture.py': ['test_aperture.py'],
+    'physical_apertures.py': ['test_physical_apertures.py'],
+    'pickup.py': ['test_pickup.py'],
+    'solves.py': ['test_solves.py'],
+    'coordinate_system.py': ['test_coordinate_system.py',
+                             'test_geometries.py'],
+}
+
+
+def auto_tests(rel, tmp):
+    parts = rel.split('/')
+    out = list(FILE_TESTS.get(parts[-1], []))
+    if len(parts) > 2:
+        out += DIR_TESTS.get(parts[1], [])
+    cand = 'test_' + parts[-1]
+    out.append(cand)
+    seen = []
+    for t in out:
+        pth = os.path.join('tests', t)
+        if t not in seen and os.path.exists(os.path.join(tmp, pth)):
+            seen.append(t)
+    return [os.path.join('tests', t) for t in seen]
+
 
 def _init(repo, tests=None):
     tmp = tempfile.mkdtemp(prefix='mutscore_')
@@ -197,15 +249,24 @@ def _run(job):
         except Exception as e:
             return job + ('invalid', str(e)[:80])
         open(p, 'w', encoding='utf-8').write(new)
-        try:
-            fs = selftest._new_findings(prop, tmp)
-        except AnalysisError as e:
-            return job + ('analysis-error', str(e)[:100])
-        except Exception as e:
-            return job + ('crash', f'{type(e).__name__}: {e}'[:100])
-        if fs:
-            return job + ('killed', f'[{fs[0].rule}] {fs[0].construct}'[:100])
+        fs, err = None, None
+        for pr in prop.split(','):
+            try:
+                fs = selftest._new_findings(pr, tmp)
+            except AnalysisError as e:
+                err = err or ('analysis-error', f'{pr}: ' + str(e)[:100])
+                continue
+            except Exception as e:
+                err = err or ('crash', f'{pr}: {type(e).__name__}: {e}'[:100])
+                continue
+            if fs:
+                return job + ('killed', f'{pr} [{fs[0].rule}] '
+                                        f'{fs[0].construct}'[:110])
+        if err:
+            return job + err
         tests = _W.get('tests')
+        if tests == ['auto']:
+            tests = auto_tests(rel, tmp)
         if tests:
             import subprocess
             env = dict(os.environ, PYTHONPATH=tmp, PYTHONDONTWRITEBYTECODE='1',
@@ -235,27 +296,39 @@ def main():
     ap.add_argument('--tests', nargs='*')
     a = ap.parse_args()
     files = a.files
+    anchors = {}
+    claimed = {c['property_id'] for c in json.load(open(
+        os.path.join(core.VERIF, 'MANIFEST.json')))['checks']}
+    for l in open(os.path.join(core.VERIF, 'properties.jsonl')):
+        pr = json.loads(l)
+        if pr['id'] in claimed:
+            anchors[pr['id']] = pr['anchors']['files']
+    allpy = []
+    for dp, dn, fns in os.walk(os.path.join(a.repo, 'optiland')):
+        for fn in fns:
+            if fn.endswith('.py'):
+                allpy.append(os.path.relpath(os.path.join(dp, fn), a.repo))
     if not files:
-        for l in open(os.path.join(core.VERIF, 'properties.jsonl')):
-            pr = json.loads(l)
-            if pr['id'] == a.prop:
-                pats = pr['anchors']['files']
-        files = []
-        for dp, dn, fns in os.walk(os.path.join(a.repo, 'optiland')):
-            for fn in fns:
-                rel = os.path.relpath(os.path.join(dp, fn), a.repo)
-                if fn.endswith('.py') and any(fnmatch.fnmatch(rel, pt)
-                                              for pt in pats):
-                    files.append(rel)
+        pats = [p for k, v in anchors.items()
+                if a.prop == 'ALL' or k == a.prop for p in v]
+        files = [rel for rel in allpy
+                 if any(fnmatch.fnmatch(rel, pt) for pt in pats)]
+
+    def props_for(rel):
+        if a.prop != 'ALL':
+            return a.prop
+        ps = [k for k, v in sorted(anchors.items())
+              if any(fnmatch.fnmatch(rel, pt) for pt in v)]
+        return ','.join(ps) or 'C13'
     jobs = []
-    for rel in sorted(files):
+    for rel in sorted(set(files)):
         src = open(os.path.join(a.repo, rel), encoding='utf-8').read()
         for k, (fq, line, desc, nid, fn) in enumerate(sites(ast.parse(src))):
             if fq.split('.')[-1] in ('view', '_plot', '__str__', '__repr__',
                                      'info', 'draw', 'draw3D') or \
                     '_plot' in fq or 'view' in fq.split('.')[-1]:
                 continue
-            jobs.append((a.prop, rel, k, fq, line, desc))
+            jobs.append((props_for(rel), rel, k, fq, line, desc))
     if a.max and len(jobs) > a.max:
         import random
         random.Random(1).shuffle(jobs)
